@@ -174,6 +174,7 @@ def containers():
     add("Columns[p1,c;d0,f1]", "flow", lambda fx, c: C([fx.leaf("p1"), c], 0, focus_column=1))
     add("Columns[given3c,pdeny;d2]", "flow", lambda fx, c: C([(3, c), fx.leaf("pdeny")], 2))
     add("Columns[punsel,c,p1;d1,f1]", "flow", lambda fx, c: C([fx.leaf("punsel"), c, fx.leaf("p1")], 1, focus_column=1))
+    add("Columns[given3c,punsel5;d1]", "flow", lambda fx, c: C([(3, c), (5, fx.leaf("punsel"))], 1))  # a wider label to the right of the field
     add("Columns[packicon,c]", "flow", lambda fx, c: C([("pack", fx.leaf("icon")), c], 1, focus_column=1))
     add("Columns[boxcol,c]", "flow", lambda fx, c: C([(2, fx.leaf("pbox")), c], 1, box_columns=[0], focus_column=1))
     add("Columns[cbox,weightbox]", "box", lambda fx, c: C([("weight", 2, c), fx.leaf("pbox")], 1))
@@ -429,6 +430,16 @@ def sig_shape(name):
     return "".join(out)
 
 
+def bad_moves(leaves):
+    """move_cursor_to_coords calls that asked a leaf for a column outside its own width (the 'correspondingly translated cell' is always inside)"""
+    out = []
+    for lf in leaves:
+        for e in lf.rec.log:
+            if e[0] == "move" and isinstance(e[2], int) and e[1] and not (0 <= e[2] < max(e[1][0], 1)):
+                out.append((lf.name, e[1], e[2], e[3]))
+    return out
+
+
 def check_size(ctx: Ctx, path, name, mode, size, fit):
     canv, geo, cm = fit
     case = {"tree": path, "name": name, "size": size}
@@ -461,7 +472,12 @@ def check_size(ctx: Ctx, path, name, mode, size, fit):
                     ctx.count("evaluations")
                     try:
                         root.render(size, True)
+                        for lf in leaves:
+                            del lf.rec.log[:]
                         ok = root.move_cursor_to_coords(size, X, Y)
+                        bm = bad_moves(leaves)
+                        if bm:
+                            V("move-iff", f"{name} {size}: move_cursor_to_coords({X},{Y}) asked a leaf for a column outside its width: {bm}", "column-outside-leaf", cell=(X, Y))
                         if ok is not False and ok is not None and ok:
                             cc = root.get_cursor_coords(size)
                             fl = _focus_leaf(root)
@@ -499,6 +515,20 @@ def check_size(ctx: Ctx, path, name, mode, size, fit):
                             V("hit", f"{name} {size}: press at ({X},{Y}) = {lname} local ({lx},{ly}) size {exp_size}; delivered size {g[1]} col,row ({g[2]},{g[3]})", cell=(X, Y))
             # ---- move_cursor_to_coords
             if not lf0.rec.selectable():
+                # a cell of an unselectable leaf (a label): whichever selectable neighbour takes the move is asked for a cell of its own
+                root, leaves = G.build(path)
+                if G.protocol:
+                    ctx.count("evaluations")
+                    try:
+                        root.render(size, True)
+                        for lf in leaves:
+                            del lf.rec.log[:]
+                        root.move_cursor_to_coords(size, X, Y)
+                        bm = bad_moves(leaves)
+                        if bm:
+                            V("move-iff", f"{name} {size}: move_cursor_to_coords({X},{Y}) (a label's cell) asked a leaf for a column outside its width: {bm}", "column-outside-leaf", cell=(X, Y))
+                    except Exception as e:
+                        V("event-raises", f"{name} {size}: move_cursor_to_coords({X},{Y}) raised {type(e).__name__}: {e}", site=exc_site(e), cell=(X, Y))
                 continue
             root, leaves = G.build(path)
             if not G.protocol:
@@ -506,10 +536,15 @@ def check_size(ctx: Ctx, path, name, mode, size, fit):
             ctx.count("evaluations")
             try:
                 root.render(size, True)
+                for lf in leaves:
+                    del lf.rec.log[:]
                 ok = root.move_cursor_to_coords(size, X, Y)
             except Exception as e:
                 V("event-raises", f"{name} {size}: move_cursor_to_coords({X},{Y}) raised {type(e).__name__}: {e}", site=exc_site(e), cell=(X, Y))
                 continue
+            bm = bad_moves(leaves)
+            if bm:
+                V("move-iff", f"{name} {size}: move_cursor_to_coords({X},{Y}) asked a leaf for a column outside its width: {bm}", "column-outside-leaf", cell=(X, Y))
             # does the leaf accept its local cell?
             lsize = geo[lname][4]
             if isinstance(lf0.rec, Probe):
